@@ -111,4 +111,12 @@ LineOk(e) ==
 
 InvAux == HaveLast => LineOk(Last)
 
+\* C20: the public query / index / document / store-facing APIs return normally
+InvAuxNoPanic ==
+    HaveLast =>
+       CASE Last.kind = "satisfy" -> Last.obs # "panic"
+         [] Last.kind \in {"scan", "cursor"} -> Last.panicked = 0
+         [] Last.kind \in {"norm", "normdoc"} -> Last.obs # <<"panic">>
+         [] OTHER -> TRUE
+
 =============================================================================
